@@ -103,6 +103,13 @@ class GenerateWasmVisitor(Visitor.DefaultVisitor):
             self.__code = None
             self.__functionCount = 0
             self.__refToLocalMap = {}
+            self.__resultTypes = []
+
+        def SetResultTypes(self, resultTypes):
+            self.__resultTypes = resultTypes
+
+        def GetResultTypes(self):
+            return self.__resultTypes
 
         def SetReferenceToLocalMap(self, refToLocalMap: Dict[int, int]):
             self.__refToLocalMap = refToLocalMap
@@ -241,6 +248,15 @@ class GenerateWasmVisitor(Visitor.DefaultVisitor):
         )
 
     def v_ReturnInstruction(self, ri: LinearIR.ReturnInstruction, ctx: Context):
+        # There is no conversion on return: the returned value has to have the
+        # declared result type, otherwise the body does not type-check
+        resultTypes = ctx.GetResultTypes()
+        valueTypes = [_ConvertType(ri.Value.Type)] if ri.Value else []
+        if valueTypes != resultTypes:
+            raise RuntimeError(
+                "Unsupported return for WebAssembly: the returned value does not have the declared type"
+            )
+
         if ri.Value:
             self.__PushValueOntoStack(ri.Value, ctx)
 
@@ -260,6 +276,10 @@ class GenerateWasmVisitor(Visitor.DefaultVisitor):
         # Every function needs an entry in the type section and in the
         # function section; the export and the code body refer to it by index
         ctx.Module.AddFunction(ctx.Module.AddFunctionType(functionType))
+        returnType = cast(LinearIR.FunctionType, function.Type).ReturnType
+        ctx.SetResultTypes(
+            [] if returnType.IsVoid() else [_ConvertType(returnType)]
+        )
 
         # Check if function is exported - for now assume yes
 
